@@ -568,9 +568,9 @@ func smtRef(t *Term) string {
 		if isBaseApp(t) {
 			return "|ub:" + t.name + ":" + t.a.name + "|"
 		}
-		return fmt.Sprintf("u%d", t.id)
+		return fmt.Sprintf("u!%d", t.id)
 	}
-	return fmt.Sprintf("t%d", t.id)
+	return fmt.Sprintf("t!%d", t.id)
 }
 
 // smtDef returns the definition body of a non-leaf term in terms of its children refs.
